@@ -291,12 +291,12 @@ func Template(kind int, seed int64, cfg *Config) *Program {
 			},
 			Ret: []Binding{{Id: "y", Exp: ref("WORK", "y")}, {Id: "n", Exp: ref("NOP", "n")}}}
 		lits := &Exp{Kind: EArray}
-		// mixed on purpose: martian folds an all-equal literal control into a
-		// constant, and the call then (by design) no longer forks along it
-		first := g.pct(50)
-		for k, b := range []bool{first, !first, g.pct(50)} {
-			_ = k
-			lits.Elems = append(lits.Elems, &Exp{Kind: EBool, B: b})
+		// mixed on purpose (martian folds an all-equal literal control into a
+		// constant, and the call then - by design - no longer forks along it):
+		// four elements, exactly one of them disabled
+		skipAt := g.r.Intn(4)
+		for k := 0; k < 4; k++ {
+			lits.Elems = append(lits.Elems, &Exp{Kind: EBool, B: k == skipAt})
 		}
 		top := &Pipeline{Name: "TOP", Outs: []Param{{Name: "y", Type: wrap(TInt)}, {Name: "y2", Type: ArrayOf(TInt)}},
 			Calls: []*Call{
